@@ -67,7 +67,12 @@ LEVEL_TEXT = (
     "lists being empty (C10_quotient_no_sibling_reads); the general theorems need only 0 <= idx < number of children "
     "and so cover one factor (C10_one_factor_reads_respect_declared_shifts is their instance). "
     "C10_all_forms_reads_respect_declared_shifts states the property for all seven "
-    "forms at once. compositions, the three shifts functions and "
+    "forms at once. The property's second sentence is C10_enough_for_productivity (Spec/ReadsAvailable.v): for every "
+    "descriptor list with the decidable shape deps_shape and every key set handed to the fixed-point analysis whose keys "
+    "come from it, every class C03's `pumps` accepts has ALL its terms available along the ACTUAL requests (avail: "
+    "well-founded order over reads_of, defined without any shift) - no class ever depends on a term that is not yet "
+    "available; applied to the seven-class example (union, product, Complement, Quotient with negative shifts, verified "
+    "classes), with a near miss (a self-loop at shift 0 is not available). compositions, the three shifts functions and "
     "Quotient's parent-shift arithmetic are re-translated from /repo on every run (Gen/*.v); the hand-written "
     "transcription of which provider get_terms calls (Count/ReadsModel.v) is tied by recording the calls of real "
     "Rule/ReverseRule/EquivalenceRule/EquivalencePathRule objects."
@@ -81,8 +86,11 @@ LEVEL_NOTE = (
     "25e10f1 this includes ONE-factor product steps, forward and raw reverse, whose reads are compared like the "
     "union ones; only for EquivalenceRule(ReverseRule(one-factor product)), alone or as a path step, get_terms "
     "still raises NotImplementedError in /repo, so there the modelled reads are only an upper bound and only "
-    "shifts() is compared). Not proved: the bridge to the forest's productivity analysis (DESIGN C10 item 5); parameters "
-    "(extra_parameters) do not influence which sizes are read and are not modelled."
+    "shifts() is compared). The bridge to the forest's productivity analysis (DESIGN C10 item 5) is "
+    "C10_enough_for_productivity; its hypothesis deps_shape is decided per case by C01's run (deps_shapeb), not by this check; "
+    "that the evaluation returns the TRUE counts is C01_spec_correct_constructors. Parameters "
+    "(extra_parameters) do not influence which sizes are read and are not modelled (for the term model of C09 this is "
+    "C01's stepF_reads; for the code it is read off compositions/params_value_pairs_combinations, not observed)."
 )
 TRUSTED = [
     "translator harness/translate.py (Python ast -> Gallina, fail closed); its output Gen/*.v is compared with the "
